@@ -186,7 +186,8 @@ def classify(fmt, d):
 
 def feature(unsup):
     first = unsup.split("+")[0]
-    return first.split("/", 1)[1] if "/" in first else "gate-name"
+    f = first.split("/", 1)[1] if "/" in first else "gate-name"
+    return "non-numeric-parameter" if f in ("string-parameter", "symbol-parameter") else f
 
 
 def word_unsup(fmt, word):
